@@ -144,7 +144,7 @@ def match_known(pid, violation, plan, known):
     return None
 
 
-def run_check(pid, tier, seed, jobs=None, budget=None, runs=None, quiet=False):
+def run_check(pid, tier, seed, jobs=None, budget=None, runs=None, quiet=False, collect=None):
     t0 = time.monotonic()
     mod = load_prop(pid)
     if hasattr(mod, "prime"):
@@ -215,6 +215,10 @@ def run_check(pid, tier, seed, jobs=None, budget=None, runs=None, quiet=False):
                 break
             submit_more()
     explore_wall = time.monotonic() - t0
+    if collect is not None:
+        collect["digests"] = set(total["digests"])
+        collect["n"] = total["n"]
+        collect["nontrivial"] = total["nontrivial"]
 
     # ---- violations: one report per distinct check id -------------------------
     known = load_known()
